@@ -5,6 +5,7 @@
 import RsjModel.Parser
 import RsjProofs.ParserSpans3
 import RsjProofs.ParserRun10
+import RsjProofs.ParserSlice
 namespace Rsj.Parser
 
 /-! ## The precedence table
@@ -225,6 +226,39 @@ theorem C15_binary_left_assoc {a b c : Expr} {ta tb tc : TokKind}
       atom_P ha, atom_P hb, atom_P hc]
     rfl
 
+/-! ## The slice grammar
+
+`SliceLayout` (`RsjProofs/ParserSlice.lean`) enumerates what can stand between `[` and `]` of a
+slice: `:` followed by one of `]`, `: ]`, `: e3 ]`, `e2 ]`, `e2 : ]`, `e2 : e3 ]` (6 layouts), or
+`:: ]`, `:: e3 ]` (2), each with and without a leading `e1` — 16 layouts over three operands. -/
+
+/-- **C15 slice_layouts.** For every one of the 16 token layouts (second colon optional, `::`
+    lexed as one token), `parse_index_expr` builds the `Slice` node with each operand in its own
+    position (`e1`, `e2`, `e3` of the layout), `None` elsewhere — whenever `parse_expr` (`pe`)
+    parses the operands themselves. -/
+theorem C15_slice_layouts {toks : List Token} (pe : PState toks → Except (Err toks) (Expr × PState toks))
+    (R : Nat) (lay : SliceLayout) (hok : lay.OK pe R) (lhs : Expr) {st : PState toks}
+    {b : TokKind} {ks : List TokKind} (hk : st.kinds = lay.tks ++ sim .RightBracket :: b :: ks)
+    (hlen : st.kinds.length ≤ R) :
+    ∃ o1 o2 o3 sp st', parseIndexExpr pe lhs st = .ok (.slice lhs o1 o2 o3 sp, st') ∧
+      eraseOpt o1 = eraseOpt lay.e1 ∧ eraseOpt o2 = eraseOpt lay.e2 ∧ eraseOpt o3 = eraseOpt lay.e3 ∧
+      st'.kinds = b :: ks :=
+  parseIndexExpr_slice pe R lay hok lhs hk hlen
+
+/-- the hypothesis of `C15_slice_layouts` holds for the real `parse_expr` and printed fragment
+    trees as operands (non-vacuity, for any layout over such operands) -/
+theorem C15_slice_operand_ok {toks : List Token} {x : Expr} (hx : Frag x) (R f : Nat) (hf : 50 * R + 10 ≤ f) :
+    Operand.OK (toks := toks) (parseExprF f) R ⟨P x 0, x⟩ :=
+  Operand.ok_of_frag hx R f hf
+
+example {toks : List Token} (R f : Nat) (hf : 50 * R + 10 ≤ f) :
+    (SliceLayout.e1colon ⟨P (.ident ⟨"78", .zero⟩ .zero) 0, .ident ⟨"78", .zero⟩ .zero⟩
+      (.exprColon ⟨P (.ident ⟨"79", .zero⟩ .zero) 0, .ident ⟨"79", .zero⟩ .zero⟩
+        (.some ⟨P (.ident ⟨"7a", .zero⟩ .zero) 0, .ident ⟨"7a", .zero⟩ .zero⟩))).OK
+      (toks := toks) (parseExprF f) R :=
+  ⟨Operand.ok_of_frag (.ident _ _) R f hf, Operand.ok_of_frag (.ident _ _) R f hf,
+    Operand.ok_of_frag (.ident _ _) R f hf⟩
+
 /-- non-vacuity: `f(a, n = b) tailstrict` is in the fragment -/
 example : Frag (.call (.ident ⟨"66", .zero⟩ .zero)
     [.positional (.ident ⟨"61", .zero⟩ .zero), .named ⟨"6e", .zero⟩ (.ident ⟨"62", .zero⟩ .zero)] true .zero) :=
@@ -260,3 +294,7 @@ open Rsj.Parser in
 #print axioms C15_full_parens_same_tree
 open Rsj.Parser in
 #print axioms C15_binary_left_assoc
+open Rsj.Parser in
+#print axioms C15_slice_layouts
+open Rsj.Parser in
+#print axioms C15_slice_operand_ok
